@@ -207,18 +207,30 @@ Proof.
   - rewrite (skip_lay l tail _ Hl Hc). reflexivity.
 Qed.
 
-(* ---- kvp_value: digits, an identifier or a string literal, up to "," or ";" ---- *)
-Inductive kvalue := VDigits (d0 : N) (ds : list N) | VIdent (i : ident) | VStr (us : list munit).
+(* ---- kvp_value: a first element (digits, identifier or string literal), then any number of further
+        elements (a string literal followed by any character, or any character but "," and ";"),
+        with any layout between them, up to "," or ";" ---- *)
+Inductive vfirst := VDigits (d0 : N) (ds : list N) | VIdent (i : ident) | VStr (us : list munit).
+Inductive vtail := TChar (c : N) | TStr (us : list munit) (l : lay) (c : N).
+Record kvalue := mkVal { v_first : vfirst; v_tl : list (lay * vtail) }.
 
-Definition render_value (v : kvalue) : list N :=
-  match v with
+Definition render_first (f : vfirst) : list N :=
+  match f with
   | VDigits d0 ds => d0 :: ds
   | VIdent i => render_ident i
   | VStr us => (34 :: render_msg us ++ [34])%list
   end.
+Definition render_vtail (t : vtail) : list N :=
+  match t with
+  | TChar c => [c]
+  | TStr us l c => (34 :: render_msg us ++ 34 :: render_lay l ++ [c])%list
+  end.
+Fixpoint render_tl (tl : list (lay * vtail)) : list N :=
+  match tl with [] => [] | (l, t) :: r => (render_lay l ++ render_vtail t ++ render_tl r)%list end.
+Definition render_value (v : kvalue) : list N := (render_first (v_first v) ++ render_tl (v_tl v))%list.
 
-Definition value_ok (v : kvalue) : bool :=
-  match v with
+Definition first_ok (f : vfirst) : bool :=
+  match f with
   | VDigits d0 ds => is_digit d0 && forallb is_digit ds
   | VIdent i => ident_ok i
   | VStr us => forallb munit_ok us
@@ -240,15 +252,121 @@ Definition tail_item : expr :=
 Lemma tail_item_miss tail p : vstops tail -> run Utab SK tail_item NonAtomic false (mkIn tail p) = Fail.
 Proof. intros (t & [->| ->]); reflexivity. Qed.
 
-(* the nodes inside the value node, and the value's span end (it keeps the layout that follows) *)
-Definition value_kids (v : kvalue) (l : lay) (p : N) : list ptree :=
-  match v with
+(* one further element, with what follows it *)
+Definition vtail_ok (t : vtail) (rest : list N) : Prop :=
+  match t with
+  | TChar c => c <> 44 /\ c <> 59 /\ c <> 34 /\ code_ahead (c :: rest)
+  | TStr us l c => forallb munit_ok us = true /\ lay_ok l (c :: rest) /\ code_ahead (c :: rest)
+  end.
+
+Definition vtail_nodes (t : vtail) (p : N) : list ptree :=
+  match t with
+  | TChar _ => []
+  | TStr us _ _ => [Node "string_literal" p (p + 1 + blen (render_msg us) + 1)
+                         [Node "string_value" (p + 1) (p + 1 + blen (render_msg us)) []]]
+  end.
+
+Lemma string_literal_miss c t p a :
+  c <> 34 -> run Utab SK r_string_literal a false (mkIn (c :: t) p) = Fail.
+Proof.
+  intros H. unfold r_string_literal. rewrite run_rule. cbn [inner_atomicity]. rewrite run_seq, run_str.
+  cbn [Peg.rest strip_prefix]. destruct (N.eqb_spec 34 c); [congruence|reflexivity].
+Qed.
+
+Lemma vtail_code t rest : vtail_ok t rest -> code_ahead (render_vtail t ++ rest)%list.
+Proof.
+  destruct t as [c|us l c]; cbn [vtail_ok render_vtail app].
+  - tauto.
+  - intros _. split; reflexivity.
+Qed.
+
+Lemma tail_item_hit t rest p :
+  vtail_ok t rest ->
+  run Utab SK tail_item NonAtomic false (mkIn (render_vtail t ++ rest)%list p)
+  = Ok (mkIn rest (p + blen (render_vtail t))) (vtail_nodes t p).
+Proof.
+  destruct t as [c|us l c]; cbn [vtail_ok render_vtail vtail_nodes app]; unfold tail_item.
+  - intros (H44 & H59 & H34 & Hc). rewrite run_seq, run_choice, (string_literal_miss c rest p NonAtomic H34).
+    rewrite run_neg, run_choice, !run_str. cbn [Peg.rest strip_prefix].
+    destruct (N.eqb_spec 44 c) as [E|_]; [exfalso; apply H44; symmetry; exact E|].
+    destruct (N.eqb_spec 59 c) as [E|_]; [exfalso; apply H59; symmetry; exact E|].
+    cbn [do_skip]. rewrite (skip_none _ _ Hc). rewrite run_any. cbn [Peg.rest pos blen app].
+    rewrite N.add_0_r. reflexivity.
+  - intros (Hus & Hl & Hc). rewrite run_seq, run_choice. rewrite <- !app_assoc. cbn [app]. rewrite <- !app_assoc. cbn [app].
+    rewrite (string_literal_spec SK NonAtomic us (render_lay l ++ c :: rest)%list p Hus).
+    cbn [do_skip]. rewrite (skip_lay l _ _ Hl Hc). rewrite run_any. cbn [Peg.rest pos app].
+    f_equal. f_equal.
+    repeat (rewrite blen_app || (progress cbn [blen])).
+    change (cplen 34) with 1. lia.
+Qed.
+
+Fixpoint tl_ok (tl : list (lay * vtail)) (rest : list N) : Prop :=
+  match tl with
+  | [] => True
+  | (l, t) :: r => lay_ok l (render_vtail t ++ render_tl r ++ rest)%list /\
+                   vtail_ok t (render_tl r ++ rest)%list /\ tl_ok r rest
+  end.
+
+Fixpoint tl_nodes (tl : list (lay * vtail)) (p : N) : list ptree :=
+  match tl with
+  | [] => []
+  | (l, t) :: r =>
+      let p1 := p + blen (render_lay l) in
+      (vtail_nodes t p1 ++ tl_nodes r (p1 + blen (render_vtail t)))%list
+  end.
+
+Lemma blen_vtail_pos t : 1 <= blen (render_vtail t).
+Proof. destruct t as [c|us l c]; cbn [render_vtail blen]; [pose proof (cplen_pos c)|]; cbn [cplen N.ltb N.compare Pos.compare Pos.compare_cont]; lia. Qed.
+Lemma length_vtail_pos t : (1 <= List.length (render_vtail t))%nat.
+Proof. destruct t as [c|us l c]; cbn [render_vtail List.length]; lia. Qed.
+
+Lemma tl_loop : forall tl lv after p fuel acc,
+  tl_ok tl (render_lay lv ++ after)%list -> lay_ok lv after -> vstops after ->
+  (List.length (render_tl tl ++ render_lay lv ++ after) < List.length fuel)%nat ->
+  rep_loop (rep_step Utab SK tail_item NonAtomic false) fuel (mkIn (render_tl tl ++ render_lay lv ++ after)%list p) acc
+  = Ok (mkIn (render_lay lv ++ after)%list (p + blen (render_tl tl))) (acc ++ tl_nodes tl p)%list.
+Proof.
+  induction tl as [|[l t] r IH]; intros lv after p fuel acc Hok Hlv Hst Hlen.
+  - cbn [render_tl app blen tl_nodes] in *. destruct fuel as [|x fuel]; [cbn in Hlen; lia|]. cbn [rep_loop].
+    unfold rep_step. cbn [do_skip]. rewrite (skip_lay lv after p Hlv (vstops_code after Hst)).
+    rewrite (tail_item_miss after _ Hst). rewrite N.add_0_r, app_nil_r. reflexivity.
+  - cbn [render_tl tl_ok] in *. destruct Hok as (Hl & Ht & Hr).
+    destruct fuel as [|x fuel]; [cbn in Hlen; lia|]. cbn [rep_loop]. unfold rep_step at 1. cbn [do_skip].
+    rewrite <- !app_assoc.
+    assert (Hca : code_ahead (render_vtail t ++ render_tl r ++ render_lay lv ++ after)%list) by (apply vtail_code; exact Ht).
+    rewrite (skip_lay l _ p Hl Hca). rewrite (tail_item_hit t _ _ Ht). cbn [pos].
+    pose proof (blen_vtail_pos t) as Hb.
+    destruct (N.ltb_spec p (p + blen (render_lay l) + blen (render_vtail t))) as [_|]; [|lia].
+    rewrite IH; [|exact Hr|exact Hlv|exact Hst|repeat rewrite app_length in Hlen; repeat rewrite app_length;
+                  pose proof (length_vtail_pos t); cbn [List.length] in Hlen; lia].
+    cbn [tl_nodes]. f_equal; [f_equal; rewrite !blen_app; lia|]. rewrite app_assoc. reflexivity.
+Qed.
+
+Definition value_ok (v : kvalue) (lv : lay) (after : list N) : Prop :=
+  first_ok (v_first v) = true /\ tl_ok (v_tl v) (render_lay lv ++ after)%list /\
+  (* what follows the first element (after its layout) does not continue it *)
+  match v_tl v with
+  | [] => True
+  | (l, t) :: r =>
+      let nxt := (render_vtail t ++ render_tl r ++ render_lay lv ++ after)%list in
+      match v_first v with VDigits _ _ => dstops nxt | VIdent _ => cstops nxt | VStr _ => True end
+  end.
+
+(* the nodes inside the value node, the end of its span (it keeps the layout before the delimiter
+   when nothing follows the first element) and the text of its span *)
+Definition first_kids (f : vfirst) (l : lay) (p : N) : list ptree :=
+  match f with
   | VDigits _ _ => []
   | VIdent i => [Node "rust_identifier" p (id_end i l p) []]
   | VStr us => [Node "string_literal" p (p + 1 + blen (render_msg us) + 1)
                      [Node "string_value" (p + 1) (p + 1 + blen (render_msg us)) []]]
   end.
-Definition value_end (v : kvalue) (l : lay) (p : N) : N := p + blen (render_value v) + blen (render_lay l).
+Definition lead_lay (v : kvalue) (lv : lay) : lay := match v_tl v with [] => lv | (l, _) :: _ => l end.
+Definition value_kids (v : kvalue) (lv : lay) (p : N) : list ptree :=
+  (first_kids (v_first v) (lead_lay v lv) p ++ tl_nodes (v_tl v) (p + blen (render_first (v_first v))))%list.
+Definition value_span (v : kvalue) (lv : lay) : list N :=
+  match v_tl v with [] => (render_value v ++ render_lay lv)%list | _ => render_value v end.
+Definition value_end (v : kvalue) (lv : lay) (p : N) : N := p + blen (value_span v lv).
 
 Lemma digit_not_name_start c : is_digit c = true -> name_start_ok c = false.
 Proof.
@@ -258,53 +376,90 @@ Proof.
   repeat (destruct Hc as [->|Hc]; [vm_compute; reflexivity|]). subst c. vm_compute. reflexivity.
 Qed.
 
-Lemma string_literal_miss c t p a :
-  c <> 34 -> run Utab SK r_string_literal a false (mkIn (c :: t) p) = Fail.
+(* the first element: where it ends and that the skip after it reaches what follows its layout *)
+Lemma value_first_spec f l nxt p :
+  first_ok f = true -> lay_ok l nxt -> code_ahead nxt ->
+  match f with VDigits _ _ => dstops nxt | VIdent _ => cstops nxt | VStr _ => True end ->
+  exists rst1 p1,
+    run Utab SK (EChoice r_rust_identifier (EChoice r_string_literal (ESeq (ERange 48 57) (ERep (ERange 48 57)))))
+        NonAtomic false (mkIn (render_first f ++ render_lay l ++ nxt)%list p)
+    = Ok (mkIn rst1 p1) (first_kids f l p) /\
+    SK (mkIn rst1 p1) = Some (mkIn nxt (p + blen (render_first f) + blen (render_lay l))).
 Proof.
-  intros H. unfold r_string_literal. rewrite run_rule. cbn [inner_atomicity]. rewrite run_seq, run_str.
-  cbn [Peg.rest strip_prefix]. destruct (N.eqb_spec 34 c); [congruence|reflexivity].
+  intros Hv Hl Hc Hst. destruct f as [d0 ds|i|us]; cbn [first_ok render_first first_kids] in *.
+  - apply andb_true_iff in Hv. destruct Hv as [Hd0 Hds].
+    rewrite run_choice. cbn [app]. rewrite (rust_identifier_miss d0 _ p (digit_not_name_start d0 Hd0)).
+    rewrite run_choice. rewrite string_literal_miss by (intros ->; discriminate).
+    rewrite run_seq, digit_run, Hd0. cbn [do_skip].
+    pose proof (skip_then_rep (ERange 48 57) is_digit digit_run digit_eof digit_code
+                  ds l nxt (p + cplen d0) Hds Hl Hc Hst) as H.
+    destruct (SK (mkIn (ds ++ render_lay l ++ nxt)%list (p + cplen d0))) as [j|]; [|discriminate].
+    rewrite H. cbn [app]. eexists. eexists. split; [reflexivity|].
+    rewrite (skip_after_rep ds l nxt (p + cplen d0) Hl Hc). cbn [blen]. f_equal. f_equal. lia.
+  - rewrite run_choice. rewrite (rust_identifier_spec i l nxt p Hv Hl Hc Hst).
+    eexists. eexists. split; [reflexivity|]. unfold id_rest, id_end.
+    rewrite (skip_after_rep (ics i) l nxt (p + cplen (i0 i)) Hl Hc). cbn [render_ident blen]. f_equal. f_equal. lia.
+  - rewrite run_choice. cbn [app]. rewrite (rust_identifier_miss 34 _ p) by (vm_compute; reflexivity).
+    rewrite run_choice. rewrite <- app_assoc. cbn [app].
+    rewrite (string_literal_spec SK NonAtomic us (render_lay l ++ nxt)%list p Hv).
+    eexists. eexists. split; [reflexivity|]. rewrite (skip_lay l nxt _ Hl Hc).
+    cbn [blen]. rewrite blen_app. cbn [blen cplen N.ltb N.compare Pos.compare Pos.compare_cont]. f_equal. f_equal. lia.
 Qed.
 
-Lemma kvp_value_spec v l tail p :
-  value_ok v = true -> lay_ok l tail -> vstops tail ->
-  run Utab SK r_kvp_value NonAtomic false (mkIn (render_value v ++ render_lay l ++ tail)%list p)
-  = Ok (mkIn tail (value_end v l p)) [Node "kvp_value" p (value_end v l p) (value_kids v l p)].
+Lemma kvp_value_spec v lv after p :
+  value_ok v lv after -> lay_ok lv after -> vstops after ->
+  run Utab SK r_kvp_value NonAtomic false (mkIn (render_value v ++ render_lay lv ++ after)%list p)
+  = Ok (mkIn (match v_tl v with [] => after | _ => (render_lay lv ++ after)%list end) (value_end v lv p))
+       [Node "kvp_value" p (value_end v lv p) (value_kids v lv p)].
 Proof.
-  intros Hv Hl Hst. pose proof (vstops_code tail Hst) as Hc.
+  intros (Hf & Htl & Hnx) Hlv Hst. pose proof (vstops_code after Hst) as Hc.
   unfold r_kvp_value. rewrite run_rule. cbn [inner_atomicity]. fold tail_item. rewrite run_seq.
-  assert (Hfirst : exists rst1 p1,
-             run Utab SK (EChoice r_rust_identifier (EChoice r_string_literal (ESeq (ERange 48 57) (ERep (ERange 48 57)))))
-                 NonAtomic false (mkIn (render_value v ++ render_lay l ++ tail)%list p)
-             = Ok (mkIn rst1 p1) (value_kids v l p) /\
-             SK (mkIn rst1 p1) = Some (mkIn tail (value_end v l p))).
-  { destruct v as [d0 ds|i|us]; cbn [value_ok render_value value_kids] in *.
-    - apply andb_true_iff in Hv. destruct Hv as [Hd0 Hds].
-      rewrite run_choice. cbn [app]. rewrite (rust_identifier_miss d0 _ p (digit_not_name_start d0 Hd0)).
-      rewrite run_choice. rewrite string_literal_miss by (intros ->; discriminate).
-      rewrite run_seq, digit_run, Hd0. cbn [do_skip].
-      pose proof (skip_then_rep (ERange 48 57) is_digit digit_run digit_eof digit_code
-                    ds l tail (p + cplen d0) Hds Hl Hc (vstops_dstops tail Hst)) as H.
-      destruct (SK (mkIn (ds ++ render_lay l ++ tail)%list (p + cplen d0))) as [j|]; [|discriminate].
-      rewrite H. cbn [app]. eexists. eexists. split; [reflexivity|].
-      rewrite (skip_after_rep ds l tail (p + cplen d0) Hl Hc). unfold value_end. cbn [render_value blen].
-      f_equal. f_equal. lia.
-    - rewrite run_choice. rewrite (rust_identifier_spec i l tail p Hv Hl Hc (vstops_cstops tail Hst)).
-      eexists. eexists. split; [reflexivity|]. unfold id_rest, id_end.
-      rewrite (skip_after_rep (ics i) l tail (p + cplen (i0 i)) Hl Hc). unfold value_end. cbn [render_value render_ident blen].
-      f_equal. f_equal. lia.
-    - rewrite run_choice. cbn [app]. rewrite (rust_identifier_miss 34 _ p) by (vm_compute; reflexivity).
-      rewrite run_choice. rewrite <- app_assoc. cbn [app].
-      rewrite (string_literal_spec SK NonAtomic us (render_lay l ++ tail)%list p Hv).
-      eexists. eexists. split; [reflexivity|]. rewrite (skip_lay l tail _ Hl Hc). unfold value_end.
-      cbn [render_value blen]. rewrite blen_app. cbn [blen cplen N.ltb N.compare Pos.compare Pos.compare_cont].
-      f_equal. f_equal. lia. }
-  destruct Hfirst as (rst1 & p1 & Hf & Hs). rewrite Hf. cbn [do_skip]. rewrite Hs.
-  rewrite run_rep, (tail_item_miss tail _ Hst). cbn [emits negb andb app pos]. rewrite app_nil_r. reflexivity.
+  unfold render_value, value_kids, value_end, value_span, lead_lay, render_value.
+  destruct v as [f tl]. cbn [v_first v_tl] in *. destruct tl as [|[l t] r].
+  - (* nothing follows the first element: the span keeps the layout before the delimiter *)
+    cbn [render_tl app tl_nodes]. rewrite app_nil_r.
+    assert (Hs : match f with VDigits _ _ => dstops after | VIdent _ => cstops after | VStr _ => True end)
+      by (destruct f; [apply vstops_dstops|apply vstops_cstops|]; auto).
+    destruct (value_first_spec f lv after p Hf Hlv Hc Hs) as (rst1 & p1 & Hrun & Hsk).
+    rewrite Hrun. cbn [do_skip]. rewrite Hsk. rewrite run_rep, (tail_item_miss after _ Hst).
+    cbn [emits negb andb app pos]. rewrite !app_nil_r. rewrite blen_app.
+    replace (p + blen (render_first f) + blen (render_lay lv)) with (p + (blen (render_first f) + blen (render_lay lv))) by lia.
+    reflexivity.
+  - cbn [render_tl tl_ok tl_nodes] in *. destruct Htl as (Hl & Ht & Hr).
+    set (nxt := (render_vtail t ++ render_tl r ++ render_lay lv ++ after)%list) in *.
+    assert (Htext : ((render_first f ++ render_lay l ++ render_vtail t ++ render_tl r) ++ render_lay lv ++ after)%list
+                    = (render_first f ++ render_lay l ++ nxt)%list).
+    { unfold nxt. rewrite <- !app_assoc. reflexivity. }
+    rewrite Htext.
+    assert (Hl' : lay_ok l nxt) by (unfold nxt; exact Hl).
+    assert (Hcn : code_ahead nxt) by (unfold nxt; apply vtail_code; exact Ht).
+    destruct (value_first_spec f l nxt p Hf Hl' Hcn Hnx) as (rst1 & p1 & Hrun & Hsk).
+    rewrite Hrun. cbn [do_skip]. rewrite Hsk. rewrite run_rep. unfold nxt at 1.
+    rewrite (tail_item_hit t _ _ Ht). cbn [pos Peg.rest].
+    pose proof (blen_vtail_pos t) as Hb.
+    destruct (N.ltb_spec (p + blen (render_first f) + blen (render_lay l))
+                         (p + blen (render_first f) + blen (render_lay l) + blen (render_vtail t))) as [_|]; [|lia].
+    rewrite tl_loop; [|exact Hr|exact Hlv|exact Hst|cbn [List.length]; lia].
+    cbn [emits negb andb app pos].
+    assert (He : p + blen (render_first f) + blen (render_lay l) + blen (render_vtail t) + blen (render_tl r)
+                 = p + blen (render_first f ++ render_lay l ++ render_vtail t ++ render_tl r)%list)
+      by (rewrite !blen_app; lia).
+    rewrite He. reflexivity.
 Qed.
 
-(* ---- one key-value:  key [= value] [,]  ---- *)
-Record kvcore := mkKv { k_key : ident; k_l1 : lay; k_val : option (lay * kvalue * lay); k_comma : bool }.
+(* ---- one key-value:  key [: modifier] [= value] [,]  ---- *)
+Definition mod_words : list (list N) :=
+  [[63]; [100; 101; 98; 117; 103]; [37]; [100; 105; 115; 112; 108; 97; 121]; [101; 114; 114];
+   [115; 118; 97; 108]; [115; 101; 114; 100; 101]].          (* ? debug % display err sval serde *)
+Record kmod := mkMod { m_l1 : lay; m_word : list N; m_l2 : lay }.
+Record kvcore := mkKv { k_key : ident; k_l1 : lay; k_mod : option kmod;
+                        k_val : option (lay * kvalue * lay); k_comma : bool }.
 
+Definition render_mod (o : option kmod) : list N :=
+  match o with
+  | Some m => (58 :: render_lay (m_l1 m) ++ m_word m ++ render_lay (m_l2 m))%list
+  | None => []
+  end.
 Definition render_val (o : option (lay * kvalue * lay)) : list N :=
   match o with
   | Some (le, v, lv) => (61 :: render_lay le ++ render_value v ++ render_lay lv)%list
@@ -312,32 +467,40 @@ Definition render_val (o : option (lay * kvalue * lay)) : list N :=
   end.
 Definition render_comma (b : bool) : list N := if b then [44] else [].
 Definition render_core (k : kvcore) : list N :=
-  (render_ident (k_key k) ++ render_lay (k_l1 k) ++ render_val (k_val k) ++ render_comma (k_comma k))%list.
+  (render_ident (k_key k) ++ render_lay (k_l1 k) ++ render_mod (k_mod k) ++ render_val (k_val k)
+   ++ render_comma (k_comma k))%list.
 
 Definition kv_body : expr :=
   ESeq r_kvp_key (ESeq (EOpt r_kvp_modifiers) (ESeq (EOpt (ESeq (EStr [61]) r_kvp_value)) (EOpt (EStr [44])))).
 
-Definition value_head_ok (v : kvalue) (t : list N) : Prop := code_ahead (render_value v ++ t)%list.
-
-Lemma value_code_ahead v t : value_ok v = true -> code_ahead (render_value v ++ t)%list.
+Lemma first_code_ahead f t : first_ok f = true -> code_ahead (render_first f ++ t)%list.
 Proof.
-  destruct v as [d0 ds|i|us]; cbn [value_ok render_value app]; intros H.
+  destruct f as [d0 ds|i|us]; cbn [first_ok render_first app]; intros H.
   - apply andb_true_iff in H. apply digit_code. tauto.
   - unfold ident_ok in H. apply andb_true_iff in H. unfold render_ident. cbn [app].
     apply (name_start_not_layout _ (proj1 H)).
   - split; reflexivity.
 Qed.
 
-(* what follows the (optional) comma *)
+Lemma value_code_ahead v lv after t : value_ok v lv after -> code_ahead (render_value v ++ t)%list.
+Proof. intros (Hf & _). unfold render_value. rewrite <- app_assoc. apply first_code_ahead. exact Hf. Qed.
+
+(* what follows the (optional) comma; after the value and after the modifier comes "=" "," or ";" *)
 Definition core_ok (k : kvcore) (tail : list N) : Prop :=
   let after := (render_comma (k_comma k) ++ tail)%list in
+  let vpart := (render_val (k_val k) ++ after)%list in
   ident_ok (k_key k) = true /\
   (k_comma k = false -> exists t, tail = 59 :: t) /\
+  lay_ok (k_l1 k) (render_mod (k_mod k) ++ vpart)%list /\
+  match k_mod k with
+  | Some m => lay_ok (m_l1 m) (m_word m ++ render_lay (m_l2 m) ++ vpart)%list /\ In (m_word m) mod_words /\
+              lay_ok (m_l2 m) vpart
+  | None => True
+  end /\
   match k_val k with
   | Some (le, v, lv) =>
-      lay_ok (k_l1 k) (render_val (k_val k) ++ after)%list /\
-      lay_ok le (render_value v ++ render_lay lv ++ after)%list /\ value_ok v = true /\ lay_ok lv after
-  | None => lay_ok (k_l1 k) after
+      lay_ok le (render_value v ++ render_lay lv ++ after)%list /\ value_ok v lv after /\ lay_ok lv after
+  | None => True
   end.
 
 Definition core_pair (k : kvcore) (p : N) : ptree * option ptree :=
@@ -345,7 +508,8 @@ Definition core_pair (k : kvcore) (p : N) : ptree * option ptree :=
   (Node "kvp_key" p pk [Node "rust_identifier" p pk []],
    match k_val k with
    | Some (le, v, lv) =>
-       let pv := p + blen (render_ident (k_key k)) + blen (render_lay (k_l1 k)) + 1 + blen (render_lay le) in
+       let pv := p + blen (render_ident (k_key k)) + blen (render_lay (k_l1 k)) + blen (render_mod (k_mod k))
+                 + 1 + blen (render_lay le) in
        Some (Node "kvp_value" pv (value_end v lv pv) (value_kids v lv pv))
    | None => None
    end).
@@ -363,54 +527,127 @@ Proof.
   cbn [Peg.rest strip_prefix]. destruct (N.eqb_spec 58 c); [congruence|reflexivity].
 Qed.
 
+Definition mod_choice : expr :=
+  EChoice (EStr [63]) (EChoice (EStr [100; 101; 98; 117; 103]) (EChoice (EStr [37])
+    (EChoice (EStr [100; 105; 115; 112; 108; 97; 121]) (EChoice (EStr [101; 114; 114])
+      (EChoice (EStr [115; 118; 97; 108]) (EStr [115; 101; 114; 100; 101])))))).
+
+Lemma mod_word_hit w t p :
+  In w mod_words -> run Utab SK mod_choice NonAtomic false (mkIn (w ++ t)%list p) = Ok (mkIn t (p + blen w)) [].
+Proof.
+  intros H. unfold mod_words in H. cbn [In] in H.
+  repeat (destruct H as [<-|H]; [reflexivity|]). contradiction.
+Qed.
+
+Lemma mod_word_code w t : In w mod_words -> code_ahead (w ++ t)%list.
+Proof.
+  intros H. unfold mod_words in H. cbn [In] in H.
+  repeat (destruct H as [<-|H]; [split; reflexivity|]). contradiction.
+Qed.
+
+Lemma modifiers_hit m rest p :
+  lay_ok (m_l1 m) (m_word m ++ render_lay (m_l2 m) ++ rest)%list -> In (m_word m) mod_words ->
+  run Utab SK r_kvp_modifiers NonAtomic false (mkIn (render_mod (Some m) ++ rest)%list p)
+  = Ok (mkIn (render_lay (m_l2 m) ++ rest)%list (p + 1 + blen (render_lay (m_l1 m)) + blen (m_word m))) [].
+Proof.
+  intros Hl1 Hw. unfold r_kvp_modifiers. rewrite run_rule. cbn [inner_atomicity]. fold mod_choice.
+  cbn [render_mod app]. rewrite run_seq, run_str. cbn [Peg.rest strip_prefix N.eqb Pos.eqb pos do_skip].
+  rewrite <- !app_assoc.
+  rewrite (skip_lay (m_l1 m) _ _ Hl1 (mod_word_code _ _ Hw)). rewrite (mod_word_hit _ _ _ Hw).
+  cbn [emits negb andb app blen cplen N.ltb N.compare Pos.compare Pos.compare_cont].
+  replace (p + (1 + 0) + blen (render_lay (m_l1 m)) + blen (m_word m)) with (p + 1 + blen (render_lay (m_l1 m)) + blen (m_word m)) by lia.
+  reflexivity.
+Qed.
+
+Lemma blen_render_mod o :
+  blen (render_mod o) = match o with Some m => 1 + blen (render_lay (m_l1 m)) + blen (m_word m) + blen (render_lay (m_l2 m)) | None => 0 end.
+Proof.
+  destruct o as [m|]; cbn [render_mod blen]; [|reflexivity]. rewrite !blen_app.
+  cbn [cplen N.ltb N.compare Pos.compare Pos.compare_cont]. lia.
+Qed.
+
 Lemma kv_core_spec k tail p :
   core_ok k tail ->
   run Utab SK kv_body NonAtomic false (mkIn (render_core k ++ tail)%list p)
   = Ok (mkIn tail (p + blen (render_core k))) (kv_nodes [core_pair k p]).
 Proof.
-  intros (Hi & Hlast & Hval). pose proof (after_vstops k tail Hlast) as Hafter.
+  intros (Hi & Hlast & Hl1 & Hmod & Hval). pose proof (after_vstops k tail Hlast) as Hafter.
   set (after := (render_comma (k_comma k) ++ tail)%list) in *.
   pose proof (vstops_code after Hafter) as Hca.
-  set (rest1 := (render_val (k_val k) ++ after)%list).
+  set (vpart := (render_val (k_val k) ++ after)%list) in *.
+  set (rest1 := (render_mod (k_mod k) ++ vpart)%list) in *.
   assert (Htext : (render_core k ++ tail)%list = (render_ident (k_key k) ++ render_lay (k_l1 k) ++ rest1)%list).
-  { unfold render_core, rest1, after. rewrite <- !app_assoc. reflexivity. }
-  assert (Hl1 : lay_ok (k_l1 k) rest1) by (unfold rest1; destruct (k_val k) as [[[le v] lv]|]; [tauto|exact Hval]).
-  (* the head of rest1 is "=" "," or ";" *)
-  assert (Hh : exists c t, rest1 = c :: t /\ (c = 61 \/ c = 44 \/ c = 59)).
-  { unfold rest1. destruct (k_val k) as [[[le v] lv]|]; cbn [render_val app].
+  { unfold render_core, rest1, vpart, after. rewrite <- !app_assoc. reflexivity. }
+  (* the head of vpart is "=" "," or ";" ; the head of rest1 may also be ":" *)
+  assert (Hv : exists c t, vpart = c :: t /\ (c = 61 \/ c = 44 \/ c = 59)).
+  { unfold vpart. destruct (k_val k) as [[[le v] lv]|]; cbn [render_val app].
     - eexists. eexists. split; [reflexivity|]. tauto.
     - destruct Hafter as (t & [->| ->]); eexists; eexists; (split; [reflexivity|]); tauto. }
+  destruct Hv as (cv & tv & Hvp & Hcv).
+  assert (Hcv_code : code_ahead vpart) by (rewrite Hvp; destruct Hcv as [->|[->| ->]]; split; reflexivity).
+  assert (Hh : exists c t, rest1 = c :: t /\ (c = 58 \/ c = 61 \/ c = 44 \/ c = 59)).
+  { unfold rest1. destruct (k_mod k) as [m|]; cbn [render_mod app].
+    - eexists. eexists. split; [reflexivity|]. tauto.
+    - rewrite Hvp. eexists. eexists. split; [reflexivity|]. tauto. }
   destruct Hh as (c1 & t1 & Hr1 & Hc1).
-  assert (Hcr : code_ahead rest1) by (rewrite Hr1; destruct Hc1 as [->|[->| ->]]; split; reflexivity).
-  assert (Hsr : cstops rest1) by (rewrite Hr1; destruct Hc1 as [->|[->| ->]]; vm_compute; reflexivity).
+  assert (Hcr : code_ahead rest1) by (rewrite Hr1; destruct Hc1 as [->|[->|[->| ->]]]; split; reflexivity).
+  assert (Hsr : cstops rest1) by (rewrite Hr1; destruct Hc1 as [->|[->|[->| ->]]]; vm_compute; reflexivity).
   rewrite Htext. unfold kv_body. rewrite run_seq.
   rewrite (kvp_key_spec (k_key k) (k_l1 k) rest1 p Hi Hl1 Hcr Hsr). cbn [do_skip].
   unfold id_rest, id_end. rewrite (skip_after_rep (ics (k_key k)) (k_l1 k) rest1 _ Hl1 Hcr).
-  set (p1 := p + cplen (i0 (k_key k)) + blen (ics (k_key k)) + blen (render_lay (k_l1 k))).
-  rewrite run_seq, run_opt. rewrite Hr1. rewrite modifiers_miss by (destruct Hc1 as [->|[->| ->]]; discriminate).
-  cbn [do_skip]. rewrite <- Hr1. rewrite (skip_none _ _ Hcr). rewrite run_seq, run_opt, run_seq, run_str.
   fold (id_end (k_key k) (k_l1 k) p).
+  set (p1 := p + cplen (i0 (k_key k)) + blen (ics (k_key k)) + blen (render_lay (k_l1 k))).
   assert (Hp1 : p1 = p + blen (render_ident (k_key k)) + blen (render_lay (k_l1 k))).
   { unfold p1, render_ident. cbn [blen]. lia. }
-  unfold rest1 at 1 2 3. unfold core_pair.
+  rewrite run_seq, run_opt.
+  (* the optional modifier: afterwards at vpart, position p2 *)
+  set (p2 := p1 + blen (render_mod (k_mod k))).
+  assert (Hmods : match match run Utab SK r_kvp_modifiers NonAtomic false (mkIn rest1 p1) with
+                        | Fail => Ok (mkIn rest1 p1) []
+                        | r => r
+                        end with
+                  | Ok i1 t1 => match do_skip SK NonAtomic i1 with
+                                | None => Diverge
+                                | Some i1' => Ok i1' t1
+                                end
+                  | r => r
+                  end = Ok (mkIn vpart p2) []).
+  { unfold rest1, p2. destruct (k_mod k) as [m|] eqn:Em.
+    - destruct Hmod as (Hm1 & Hw & Hm2). rewrite (modifiers_hit m vpart p1 Hm1 Hw). cbn [do_skip].
+      rewrite (skip_lay (m_l2 m) vpart _ Hm2 Hcv_code). rewrite blen_render_mod. f_equal. f_equal. lia.
+    - cbn [render_mod app blen]. rewrite Hvp. rewrite modifiers_miss by (destruct Hcv as [->|[->| ->]]; discriminate).
+      cbn [do_skip]. rewrite <- Hvp. rewrite (skip_none _ _ Hcv_code). rewrite N.add_0_r. reflexivity. }
+  destruct (match run Utab SK r_kvp_modifiers NonAtomic false (mkIn rest1 p1) with
+            | Fail => Ok (mkIn rest1 p1) []
+            | r => r
+            end) as [| |im tm]; try discriminate.
+  destruct (do_skip SK NonAtomic im) as [im'|]; [|discriminate]. inversion Hmods; subst im' tm. clear Hmods.
+  rewrite run_seq, run_opt, run_seq, run_str.
+  unfold vpart at 1 2 3. unfold core_pair.
+  assert (Hp2 : p2 = p + blen (render_ident (k_key k)) + blen (render_lay (k_l1 k)) + blen (render_mod (k_mod k)))
+    by (unfold p2; lia).
   destruct (k_val k) as [[[le v] lv]|] eqn:Ev; cbn [render_val app Peg.rest strip_prefix pos].
-  - destruct Hval as (_ & Hle & Hv & Hlv).
+  - destruct Hval as (Hle & Hvok & Hlv).
     rewrite N.eqb_refl. cbn [do_skip blen cplen N.ltb N.compare Pos.compare Pos.compare_cont].
-    rewrite <- !app_assoc. rewrite (skip_lay le _ _ Hle (value_code_ahead v _ Hv)).
-    rewrite (kvp_value_spec v lv after _ Hv Hlv Hafter). cbn [do_skip app].
-    rewrite (skip_none _ _ Hca). rewrite run_opt, run_str. unfold after at 1 2. cbn [Peg.rest pos].
-    replace (p1 + (1 + 0) + blen (render_lay le)) with
-        (p + blen (render_ident (k_key k)) + blen (render_lay (k_l1 k)) + 1 + blen (render_lay le)) by lia.
-    set (pv := p + blen (render_ident (k_key k)) + blen (render_lay (k_l1 k)) + 1 + blen (render_lay le)).
-    assert (Hend : forall extra, value_end v lv pv + extra = p + blen (render_core k) ->
-                   True) by (intros; exact I).
+    rewrite <- !app_assoc. rewrite (skip_lay le _ _ Hle (value_code_ahead v lv after _ Hvok)).
+    rewrite (kvp_value_spec v lv after _ Hvok Hlv Hafter). cbn [do_skip app].
+    replace (p2 + (1 + 0) + blen (render_lay le)) with
+        (p + blen (render_ident (k_key k)) + blen (render_lay (k_l1 k)) + blen (render_mod (k_mod k)) + 1 + blen (render_lay le)) by lia.
+    set (pv := p + blen (render_ident (k_key k)) + blen (render_lay (k_l1 k)) + blen (render_mod (k_mod k)) + 1 + blen (render_lay le)).
+    (* the skip after the value arrives at `after` in both cases *)
+    assert (Hsk : SK (mkIn (match v_tl v with [] => after | _ => (render_lay lv ++ after)%list end) (value_end v lv pv))
+                  = Some (mkIn after (pv + blen (render_value v) + blen (render_lay lv)))).
+    { unfold value_end, value_span. destruct (v_tl v).
+      - rewrite (skip_none _ _ Hca). rewrite blen_app, N.add_assoc. reflexivity.
+      - rewrite (skip_lay lv after _ Hlv Hca). reflexivity. }
+    rewrite Hsk. rewrite run_opt, run_str. unfold after at 1 2. cbn [Peg.rest pos].
     destruct (k_comma k) eqn:Ec; cbn [render_comma app strip_prefix].
     + rewrite N.eqb_refl. cbn [kv_nodes app blen cplen N.ltb N.compare Pos.compare Pos.compare_cont].
-      f_equal. f_equal. unfold value_end, pv, render_core. rewrite Ev, Ec. cbn [render_val render_comma].
-      rewrite !blen_app. cbn [blen]. rewrite !blen_app. cbn [blen cplen N.ltb N.compare Pos.compare Pos.compare_cont]. lia.
+      f_equal. f_equal. unfold pv, render_core. rewrite Ev, Ec. cbn [render_val render_comma].
+      repeat (rewrite blen_app || (progress cbn [blen])). cbn [cplen N.ltb N.compare Pos.compare Pos.compare_cont]. lia.
     + destruct (Hlast eq_refl) as [t ->]. cbn [strip_prefix N.eqb Pos.eqb kv_nodes app].
-      f_equal. f_equal. unfold value_end, pv, render_core. rewrite Ev, Ec. cbn [render_val render_comma].
-      rewrite !blen_app. cbn [blen]. rewrite !blen_app. cbn [blen cplen N.ltb N.compare Pos.compare Pos.compare_cont]. lia.
+      f_equal. f_equal. unfold pv, render_core. rewrite Ev, Ec. cbn [render_val render_comma].
+      repeat (rewrite blen_app || (progress cbn [blen])). cbn [cplen N.ltb N.compare Pos.compare Pos.compare_cont]. lia.
   - (* no value: "=" does not follow *)
     assert (Hne : match after with [] => True | c :: _ => c <> 61 end)
       by (destruct Hafter as (t & [->| ->]); discriminate).
@@ -421,11 +658,11 @@ Proof.
     destruct (k_comma k) eqn:Ec; cbn [render_comma app] in Ea.
     + inversion Ea; subst ca ta. rewrite N.eqb_refl. cbn [kv_nodes app blen cplen N.ltb N.compare Pos.compare Pos.compare_cont].
       f_equal. f_equal. unfold render_core. rewrite Ev, Ec. cbn [render_val render_comma].
-      rewrite !blen_app. cbn [blen cplen N.ltb N.compare Pos.compare Pos.compare_cont]. lia.
+      repeat (rewrite blen_app || (progress cbn [blen])). cbn [cplen N.ltb N.compare Pos.compare Pos.compare_cont]. lia.
     + destruct (Hlast eq_refl) as [t Ht]. rewrite Ht in Ea. inversion Ea; subst ca ta.
       cbn [N.eqb Pos.eqb kv_nodes app]. rewrite Ht.
       f_equal. f_equal. unfold render_core. rewrite Ev, Ec. cbn [render_val render_comma].
-      rewrite !blen_app. cbn [blen]. lia.
+      repeat (rewrite blen_app || (progress cbn [blen])). lia.
 Qed.
 
 (* ---- kvp_args:  kv (layout kv)* layout ";"  ---- *)
@@ -441,7 +678,7 @@ Proof.
   apply (name_start_not_layout _ (proj1 H)).
 Qed.
 
-Lemma render_core_head k t : (render_core k ++ t)%list = (render_ident (k_key k) ++ (render_lay (k_l1 k) ++ render_val (k_val k) ++ render_comma (k_comma k)) ++ t)%list.
+Lemma render_core_head k t : (render_core k ++ t)%list = (render_ident (k_key k) ++ (render_lay (k_l1 k) ++ render_mod (k_mod k) ++ render_val (k_val k) ++ render_comma (k_comma k)) ++ t)%list.
 Proof. unfold render_core. rewrite <- !app_assoc. reflexivity. Qed.
 
 Fixpoint more_ok (more : list (lay * kvcore)) (lsemi : lay) (tail : list N) : Prop :=
